@@ -5,7 +5,7 @@ from . import common as C, damage as D, pkgfam as P
 PID = "C04"
 THEORY = ["theories/Base/Crc.v", "theories/Base/Parser.v", "theories/Base/Prog.v", "theories/Manifest/Mask.v",
           "theories/Manifest/SetLocation.v", "theories/Container/Reader.v", "theories/Container/Damage.v",
-          "theories/Container/Check.v"]
+          "theories/Container/Check.v", "theories/Container/Embed.v", "theories/Container/EmbedPacks.v"]
 
 
 def gen_created(tier, rng):
